@@ -150,9 +150,9 @@ def gen_forwarders(d):
         L = f"&'a {base}" if ref else base
         arg = "self" if ref else "&self"
         out.append(f"""impl{lt} vstd::std_specs::ops::{Tr}SpecImpl for {L} {{
-    open spec fn obeys_{m}_spec() -> bool {{ false }}
-    open spec fn {m}_req(self) -> bool {{ {fn}_req({arg}) }}
-    open spec fn {m}_spec(self) -> {C} {{ arbitrary() }}
+    closed spec fn obeys_{m}_spec() -> bool {{ false }}
+    closed spec fn {m}_req(self) -> bool {{ {fn}_req({arg}) }}
+    closed spec fn {m}_spec(self) -> {C} {{ arbitrary() }}
 }}
 impl{lt} core::ops::{Tr} for {L} {{
     type Output = {C};
@@ -173,9 +173,9 @@ impl{lt} core::ops::{Tr} for {L} {{
         ra = "rhs" if rref else "&rhs"
         args = f"{ra}, {la}" if swapped else f"{la}, {ra}"
         return f"""impl{lt} vstd::std_specs::ops::{Tr}SpecImpl<{R}> for {L} {{
-    open spec fn obeys_{m}_spec() -> bool {{ false }}
-    open spec fn {m}_req(self, rhs: {R}) -> bool {{ {fn}_req({args}) }}
-    open spec fn {m}_spec(self, rhs: {R}) -> {C} {{ arbitrary() }}
+    closed spec fn obeys_{m}_spec() -> bool {{ false }}
+    closed spec fn {m}_req(self, rhs: {R}) -> bool {{ {fn}_req({args}) }}
+    closed spec fn {m}_spec(self, rhs: {R}) -> {C} {{ arbitrary() }}
 }}
 impl{lt} core::ops::{Tr}<{R}> for {L} {{
     type Output = {C};
